@@ -152,7 +152,7 @@ func ruleR29() *Rule {
 									continue
 								}
 								switch {
-								case f.Name() == "totalUvarintBytes":
+								case namedFn(f, "totalUvarintBytes"):
 									for i, a := range x.Call.Args {
 										checkVal(a, fmt.Sprintf("size component %d", i), in)
 									}
